@@ -71,7 +71,7 @@ PROPS = {
         "native": [
             {"name": "type_universe_distinct_and_stable", "bin": "replay_c14", "crate": "replay", "twice": True,
              "pre": "python3 lib/gen_c14_universe.py out/aux/c14_universe.rs", "tiers": ("quick", "thorough"),
-             "bound": "6345 types of a generated constructor-closed universe (EVERY leaf type that has an Identifiable impl incl. the smallvec/bitvec features, all unary constructors over the main leaves, every `?Sized`-accepting constructor over every unsized leaf, Cow over borrowed AND owned forms, nestings to depth 3, binary constructors in both argument orders, permuted tuples, array lengths, derived user types): ids evaluated on the real crate, pairwise distinct, identical in two separate processes; plus a crafted family of type NAMES fed to from_unique_type_name: names of every length 1..72 changed in one byte (hand-picked pairs and every single-bit pair) or by swapping adjacent bytes at every position must get distinct ids"},
+             "bound": "6478 types of a generated constructor-closed universe (EVERY leaf type that has an Identifiable impl incl. the smallvec/bitvec features, all unary constructors over the main leaves, every `?Sized`-accepting constructor over every unsized leaf, Cow over borrowed AND owned forms, nestings to depth 3, binary constructors in both argument orders, maps and sets under two hasher types, permuted tuples, array lengths, derived user types): ids evaluated on the real crate, pairwise distinct, identical in two separate processes; plus a crafted family of type NAMES fed to from_unique_type_name: names of every length 1..72 changed in one byte (hand-picked pairs and every single-bit pair) or by swapping adjacent bytes at every position must get distinct ids"},
             {"name": "store_addressing_through_both_write_paths", "bin": "replay_c11", "crate": "replay_db", "release": False, "tiers": ("quick", "thorough"), "thorough_seeds": 2,
              "bound": "the C11 real-backend run (direct and serialization-buffer write paths, first touch of a column after a reopen, several operations on one slot in one buffer, empty encodings): every operation must land in the column of its own column type"},
             {"name": "store_slots_by_type_id", "bin": "replay_c14_store", "crate": "replay_db", "release": False, "tiers": ("quick", "thorough"), "thorough_seeds": 1,
@@ -162,13 +162,13 @@ PROPS = {
         # the key scheme rests on the Postcard leaf codecs of the integer widths keys are made of (rule R10 assumes
         # C12's contract): re-establish that part here, on the real code, every run
         "kani": [
-            {"crate": "c12", "kind": "complete", "harnesses": ["rt_usize", "pair_usize", "rt_u64", "pair_u64", "rt_u32", "pair_u32", "rt_u8", "pair_u8", "rt_u16", "rt_i32", "rt_i64"],
-             "tiers": ("quick", "thorough"), "jobs": 12,
+            {"crate": "c12", "kind": "complete", "harnesses": C12_FAST,
+             "tiers": ("quick", "thorough"), "jobs": 14,
              "bound": "none: full-domain symbolic input, loops unrolled to operand width with unwinding assertions"},
         ],
         "native": [
             {"name": "real_backends_scan_and_point_reads", "bin": "replay_c11", "crate": "replay_db", "release": False, "tiers": ("quick", "thorough"), "thorough_seeds": 6, "timeout": 5400,
-             "bound": "the REAL RocksDB and Fjall backends (temporary directories): seeded random batches over prefix-related / empty / 0xFF-heavy / >32-bit keys, wide columns with both discriminant encodings and key-of-set columns, point reads and member scans compared with a reference map, direct and serialization-buffer write paths, first touch after a reopen, several operations on one slot in one buffer, empty value encodings, batches that hold ONLY operations with empty key and value encodings, string values of 0..70001 bytes and string keys / members of 0..5000 bytes (Fjall limits backend keys to 65535 bytes), 128-bit boundary keys, before and after reopen; 1 seed in the quick tier, 6 in the thorough tier (builds RocksDB: about 3 minutes cold, 1 s warm)"},
+             "bound": "the REAL RocksDB and Fjall backends (temporary directories): seeded random batches over prefix-related / empty / 0xFF-heavy / >32-bit keys, wide columns with both discriminant encodings and key-of-set columns, point reads and member scans compared with a reference map, direct and serialization-buffer write paths, first touch after a reopen, several operations on one slot in one buffer and in one direct batch (also on never-committed members / keys, and across two uncommitted batches), small signed keys / members / values on both sides of zero, empty value encodings, batches that hold ONLY operations with empty key and value encodings, string values of 0..70001 bytes and string keys / members of 0..5000 bytes (Fjall limits backend keys to 65535 bytes), 128-bit boundary keys, before and after reopen; 1 seed in the quick tier, 6 in the thorough tier (builds RocksDB: about 3 minutes cold, 1 s warm)"},
         ],
         "witness": witness.c11,
         "assumptions": [
@@ -195,7 +195,7 @@ PROPS = {
         ],
         "native": [
             {"name": "roundtrip_types_not_under_contract", "bin": "replay_c12", "crate": "replay", "tiers": ("quick", "thorough"),
-             "bound": "exhaustive 8/16-bit integers, every 7-bit varint boundary +-1 and 64 seeded values per wider width, nested through the generic constructors; String/PathBuf (incl. paths that are not valid UTF-8: refusal or exact round trip), BTree*/Hash*/VecDeque/LinkedList, derived enums with 130 / 300 variants, SmallVec, BitVec (5 storage types x 2 bit orders x 17 lengths x 3 head offsets), derive fixtures; interned handles (Interned<String|str|PathBuf|Path|Vec<u32>|[u32]>, repeats, equal content under different handle types in one session in every order, nested handles; decoded with a FRESH interner and with the writer's): decode(encode(v)) == v and exact consumption, on the real crates with the optional features on"},
+             "bound": "exhaustive 8/16-bit integers, every 7-bit varint boundary +-1 and 64 seeded values per wider width, nested through the generic constructors; String/PathBuf (incl. paths that are not valid UTF-8: refusal or exact round trip), every value decoded a second time through a reader that delivers one byte per read() call, BTree*/Hash*/VecDeque/LinkedList, derived enums with 130 / 300 variants, SmallVec, BitVec (5 storage types x 2 bit orders x 17 lengths x 3 head offsets), derive fixtures; interned handles (Interned<String|str|PathBuf|Path|Vec<u32>|[u32]>, repeats, equal content under different handle types in one session in every order, nested handles; decoded with a FRESH interner and with the writer's): decode(encode(v)) == v and exact consumption, on the real crates with the optional features on"},
             {"name": "range_inclusive_exhausted_flag", "bin": "replay_c12", "crate": "replay", "tiers": ("quick", "thorough"), "args": ["--only", "range_inclusive_exhausted"], "thorough_seeds": 1,
              "bound": "3 directed inputs: RangeInclusive<u32|i64|char> iterated to exhaustion (front / drained / back) -- decode(encode(v)) == v on the real crate (known finding F4)"},
         ],
